@@ -1540,8 +1540,9 @@ func (n *RegexNode) reduceConcatenationWithAdjacentLoops() {
 					next++
 					continue
 				}
-			} else if (currentNode.T == NtOneloop || currentNode.T == NtOnelazy) && nextNode.T == NtMulti && currentNode.Ch == nextNode.Str[0] {
-				// Coalescing a loop with a subsequent string
+			} else if (currentNode.T == NtOneloop || currentNode.T == NtOnelazy) && nextNode.T == NtMulti && (currentNode.Options&RightToLeft) == 0 && currentNode.Ch == nextNode.Str[0] {
+				// Coalescing a loop with a subsequent string (left-to-right only: in a right-to-left
+				// concatenation the loop is adjacent to the end of the string, not to its start)
 				// Determine how many of the multi's characters can be combined.
 				// We already checked for the first, so we know it's at least one.
 				matchingCharsInMulti := 1
